@@ -7,7 +7,8 @@ PROP = {'suites': ['c10', 'c10near'],
              6: 'a refresh token was accepted after the absolute expiry fixed when the grant was created',
              7: 'a refresh widened the resources (aud) beyond the original grant',
              8: 'a refresh widened the authorization details: the refreshed token (response member, JWT claim) or what introspection reports afterwards carries a detail of an unsupported type or '
-                'outside what the embedder granted to the grant'},
+                'outside what the embedder granted to the grant',
+             9: 'a refresh that named no authorization details did not return to the full grant: the response does not carry exactly the granted details'},
  'title': 'Refresh tokens are client-bound, never widen or extend the grant, and rotate',
  'text': 'Theorems over the model: refresh_bound (for every store and refresh that yields tokens: token indexes a grant of the authenticated client, absolute expiry not passed and NOT moved, '
          'requested scopes within the original grant whose granted set is unchanged, same grant id re-saved, replacement token in the response under rotation), refresh_never_widens_resources (the '
